@@ -11,6 +11,7 @@ import (
 	"fmt"
 	"math"
 	"math/big"
+	"os"
 	"strconv"
 	"strings"
 	"unicode/utf8"
@@ -437,11 +438,17 @@ func aKey(ns bool, k string) xacc        { return xacc{kind: 'k', ns: ns, key: k
 func aIdx(ns bool, i int64) xacc         { return xacc{kind: 'i', ns: ns, idx: i} }
 func aExpr(ns bool, e *xe) xacc          { return xacc{kind: 'x', ns: ns, e: e} }
 
-// exact decimal expansion of a float64 that is a dyadic rational
+// exact decimal expansion of a float64 (every finite float64 is a dyadic rational)
 func decimalOf(f float64) string {
-	s := new(big.Float).SetFloat64(f).Text('f', -1)
-	// Text('f', -1) gives the shortest representation that round-trips; for the dyadic
-	// values generated here (<= 9 fraction bits, < 2^20) that is the exact expansion.
+	r := new(big.Rat).SetFloat64(f)
+	if r == nil {
+		return "0"
+	}
+	s := r.FloatString(1100)
+	if strings.Contains(s, ".") {
+		s = strings.TrimRight(s, "0")
+		s = strings.TrimSuffix(s, ".")
+	}
 	return s
 }
 
@@ -533,9 +540,34 @@ func xPickInt(r *hx.Rand) int64 {
 	return int64(r.Intn(41)) - 20
 }
 
-// dyadic, printable without exponent: |x| < 2^17, at most 6 fraction bits
+// floats of the data and of the literals.  Two thirds small dyadics (|x| < 2^11, at most 6 fraction bits: sums, products
+// and most quotients of them stay exact); one third from the rest of the printing domain: magnitudes from 2^8 to 2^62 and
+// from 2^-40 to 2^-12 (Go's exponent form from 10^6 up and below 10^-4), the thresholds themselves, and float64 values
+// whose shortest decimal is not their exact expansion (0.1, 1e-7, 2^53+2 ...).
+var xFloatSpecials = []float64{1e6, 999999.5, 999999.9375, 1e5, 1234567, 1e15, 1e21, 1 << 53, (1 << 53) + 2, 1 << 62, 0.0001220703125, 0.00006103515625,
+	0.0001, 0.1, 0.3, 1e-7, 123456789.125, 4.35, 2.5e-5, 1e100, 33554432.5, 0.000091552734375}
+
+// VERIF_C01_NARROW_FLOATS=1 restores the floats of the generator before Num.fl_to_string covered every float64
+// (|x| < 2^11, at most 6 fraction bits), to measure the skipped fraction on the same cases as before.
+var xNarrowFloats = os.Getenv("VERIF_C01_NARROW_FLOATS") != ""
+
 func xPickFloat(r *hx.Rand) float64 {
-	switch r.Intn(8) {
+	if xNarrowFloats {
+		switch r.Intn(8) {
+		case 0:
+			return 0
+		case 1:
+			return 0.5
+		case 2:
+			return -1.5
+		case 3:
+			return float64(r.Intn(1000))
+		}
+		m := int64(r.Intn(1<<12)) - (1 << 11)
+		k := r.Intn(7)
+		return float64(m) / float64(int64(1)<<uint(k))
+	}
+	switch r.Intn(12) {
 	case 0:
 		return 0
 	case 1:
@@ -544,6 +576,16 @@ func xPickFloat(r *hx.Rand) float64 {
 		return -1.5
 	case 3:
 		return float64(r.Intn(1000))
+	case 8: // large
+		return float64(int64(r.Intn(1<<12))-(1<<11)) * float64(int64(1)<<uint(8+r.Intn(43)))
+	case 9: // small
+		return float64(int64(r.Intn(1<<12))-(1<<11)) / float64(int64(1)<<uint(12+r.Intn(29)))
+	case 10:
+		f := xFloatSpecials[r.Intn(len(xFloatSpecials))]
+		if r.Chance(30) {
+			f = -f
+		}
+		return f
 	}
 	m := int64(r.Intn(1<<12)) - (1 << 11)
 	k := r.Intn(7)
